@@ -89,8 +89,8 @@ def run(ctx):
     pc.calibrate()
     q = ctx.quick
     ctx.units("golden", unit_golden, [{}])
-    ctx.units("ast-hypothesis", unit_ast, [{"n": 1000 if q else 20000, "seed": ctx.seed, "shard": i} for i in range(4 if q else 16)], procs=16)
-    ctx.units("compiler-reuse", unit_reuse, [{"n": 300 if q else 4000, "seed": ctx.seed, "shard": i} for i in range(4 if q else 16)], procs=16)
+    ctx.units("ast-hypothesis", unit_ast, [{"n": 1500 if q else 20000, "seed": ctx.seed, "shard": i} for i in range(8 if q else 16)], procs=16)
+    ctx.units("compiler-reuse", unit_reuse, [{"n": 450 if q else 4000, "seed": ctx.seed, "shard": i} for i in range(8 if q else 16)], procs=16)
     from . import textdocs
     textdocs.run_text(ctx, "C08")
     ctx.rule = ("ASTs with 0..3 tags (duplicates, bare '@') on feature, rules, scenarios and examples blocks, several siblings at each "
